@@ -2,9 +2,9 @@
 from vlib import engine
 from vlib.engine import CheckDef, ModelRun, prog_string
 
-NAMES = ['write_commit', 'write_cancel', 'write_move_commit', 'snap_read', 'snap_hold', 'try_snap']
+NAMES = ['write_commit', 'write_cancel', 'write_move_commit', 'snap_read', 'snap_hold', 'try_snap', 'write_move_stale_cancel']
 OPS = {n: i for i, n in enumerate(NAMES)}
-W = '0,1,2'
+W = '0,1,2,6'
 R = '3,4,5'
 
 
@@ -26,9 +26,9 @@ class C04(CheckDef):
     fields = ('t', 'k', 'o', 'i', 'v', 'w')
     san = {'quick': False, 'thorough': True}
     programs = {
-        'quick': [('%s;%s/%s/%s;%s' % (W, W, W, R, R), {}, 1200, 'random'), ('0;0/0;1/4;4/3;5', {}, 1000, 'random'), ('1;0/1;2/4;4', {}, 800, 'pct'),
+        'quick': [('%s;%s/%s/%s;%s' % (W, W, W, R, R), {}, 1200, 'random'), ('0;0/0;1/4;4/3;5', {}, 1000, 'random'), ('1;0/1;6/4;4', {}, 800, 'pct'),
                   ('0;0/4;4/3;3', {}, 400, 'solo'), ('%s/%s/%s/%s' % (W, W, R, R), {}, 800, 'random'),
-                  ('1/0', {}, 4000, 'pb2'), ('0,1,2/0,1,2/3', {}, 3000, 'pb1'), ('0/4', {}, 4000, 'pb2')],
+                  ('1/0', {}, 4000, 'pb2'), ('0,1,2,6/0,1,2,6/3', {}, 3000, 'pb1'), ('0/4', {}, 4000, 'pb2')],
         'thorough': [('%s;%s/%s/%s;%s' % (W, W, W, R, R), {}, 25000, 'random'), ('0;0/0;1/4;4/3;5', {}, 20000, 'random'), ('1;0/1;2/4;4', {}, 15000, 'pct'),
                      ('0;0/4;4/3;3', {}, 8000, 'solo'), ('%s/%s/%s/%s' % (W, W, R, R), {}, 15000, 'random'),
                      ('%s;%s/%s;%s/%s;%s;%s' % (W, W, W, W, R, R, R), {}, 20000, 'random'),
